@@ -9,13 +9,17 @@ Property theorems only (helper lemmas live in `Lemmas/DataReader.lean`, `Lemmas/
 * MODEL (`Model/Value.lean`): `Elem`/`PyVal` (the Python values of the property's domain; a dict
   inside a list is not representable, floats are given by their `repr`), `Expr` (what the
   constructed objects hold), `renderElem/renderExpr/renderBinding` (transliteration of
-  `coerce_expression`, `Primitive`, `FloatExpression`, `NixList`, `Binding`, `AttributeSet`), and the
-  five container contexts `Ctx` with `renderCtx`.
+  `coerce_expression`, `_float_literal`, `Primitive`, `FloatExpression`, `NixList`,
+  `_coerce_list_item`, `Parenthesis`, `Binding`, `AttributeSet`), and the container contexts `Ctx`
+  with `renderCtx` (`Except`-valued: `ValueError` when the object holds an int `coerce_expression`
+  refuses — `exprRefused` —, else the text `renderCtxText`).
 * SPEC (`Model/DataReader.lean`, `Model/ValueSpec.lean`): `readData`/`readBinding` — how Nix reads a
   text of the data fragment (lexer rules of Nix for INT/FLOAT/ID/strings; a unary minus is accepted
-  where an operator expression may stand, never as a list element); `denote`/`expected` — the data a
-  Python value is; `ctxInDomain` — the property's domain; `ctxReadable` — the decidable side
-  condition under which the code does keep the value.
+  where an operator expression may stand — binding value, top level, inside parentheses — never
+  bare as a list element; a float is the real number its literal denotes, `decValue`);
+  `denote`/`expected` — the data a Python value is; `ctxInDomain` — the property's domain; `ctxReadable` — the decidable side
+  condition under which the code does keep the value (every value of the domain meets it);
+  `dataOutOfRange` — the data the API must refuse.
 
 All statements quantify over every value (unbounded nesting, every string over `Char`, every
 integer, every indent and inline flag).
@@ -34,6 +38,16 @@ theorem tie_literals :
     Gen.stringEscapesInterpolation = some stringEscapesInterpolation := by decide
 theorem tie_coerce_order :
     Gen.coerceOrder = some coerceOrder ∧ Gen.primitiveOrder = some primitiveOrder := by decide
+/-- `coerce_expression` spells a float through `_float_literal`: `.0` is put in front of the `e` of a
+    repr without `.`. -/
+theorem tie_float_literal : Gen.floatLiteralRule = some floatLiteralRule := by decide
+/-- `coerce_expression` raises `ValueError` for an int with `abs(value) > 2^63 - 1`; the bound of the
+    code is the bound of the SPEC reader. -/
+theorem tie_int_literal_max : Gen.coerceIntMax = some coerceIntMax ∧ coerceIntMax = nixIntMax := by decide
+/-- `NixList` renders its items through `_coerce_list_item` (negative number literals in a
+    `Parenthesis`), probes them for newlines through plain `coerce_expression`. -/
+theorem tie_list_item_paren :
+    Gen.negLiteralTests = some negLiteralTests ∧ Gen.listItemCoercers = some listItemCoercers := by decide
 
 /-- The model's escaper is the interpreter of the tied table (as in C12). -/
 theorem escapeNix_table (interp : Bool) (c : Char) (cs : Text) (r : Text)
@@ -47,7 +61,7 @@ theorem escapeNix_table (interp : Bool) (c : Char) (cs : Text) (r : Text)
     it has no `${`, its rendered literal is read back by Nix as exactly that string. -/
 theorem string_roundtrip (s : Text) (h : hasInterp s = false) (indent : Nat) (inline : Bool) :
     readData (renderElem (.str s) indent inline) = some (.str s) := by
-  have hl := lex_renderElem (.str s) false indent inline [] (by simp [elemReadable, h]) rfl
+  have hl := lex_renderElem (.str s) indent inline [] (by simp [elemReadable, h]) rfl
   simp only [List.append_nil, lexData_nil, Option.map_some] at hl
   simp [readData, hl, toksE, pValue, pElem]
 
@@ -84,110 +98,160 @@ theorem readBinding_renderBinding (k : Text) (x : Expr) (indent : Nat) (inline :
   rw [readData_of_lex _ _ hl hr]
   simp [denoteX, denoteBs]
 
-/-- **Partial theorem (what holds of the code).** In every container context of the construction
-    API, a value satisfying the decidable side condition `ctxReadable` (identifier keys, strings
-    without `${`; no negative number as a list element, floats whose repr is a Nix float token,
-    integers within 64 bits) renders to text that Nix reads back as exactly that value. -/
+/-- **The read-back theorem under its decidable side condition.** In every container context of
+    the construction API, a value satisfying `ctxReadable` (identifier keys, strings without `${`;
+    floats whose spelled literal is a Nix float token denoting the number of the repr — true of every
+    Python repr, `float_repr_literal_ok` —, integers within 64 bits) is accepted, and renders to text
+    that Nix reads back as exactly that value — negative numbers included, wherever they stand. -/
 theorem roundtrip_partial (c : Ctx) (h : ctxReadable c = true) :
-    readCtx c (renderCtx c) = some (expected c) := by
+    renderCtx c = .ok (renderCtxText c) ∧ readCtx c (renderCtxText c) = some (expected c) := by
+  refine ⟨by simp [renderCtx, exprReadable_not_refused _ (ctxExpr_readable c h)], ?_⟩
+  have hx := ctxExpr_readable c h
   cases c with
   | fromDict d =>
-    have hx := bindValue_readable (.dict d) h
-    simp only [readCtx, renderCtx, expected, fromDict_eq]
+    simp only [readCtx, renderCtxText, ctxExpr, expected, fromDict_eq] at hx ⊢
     rw [readData_renderExpr _ 0 false hx, denoteX_bindValue]; rfl
   | values d =>
-    have hx := bindValue_readable (.dict d) h
-    simp only [readCtx, renderCtx, expected, valuesCtor_eq, fromDict_eq]
+    simp only [readCtx, renderCtxText, ctxExpr, expected, valuesCtor_eq, fromDict_eq] at hx ⊢
     rw [readData_renderExpr _ 0 false hx, denoteX_bindValue]; rfl
   | binding k v =>
     simp only [ctxReadable, Bool.and_eq_true] at h
-    simp only [readCtx, renderCtx, expected]
+    simp only [readCtx, renderCtxText, expected]
     rw [readBinding_renderBinding k _ 0 false h.1 (bindValue_readable v h.2), denoteX_bindValue]; rfl
   | list xs =>
-    have hx : exprReadable (.raw (.list xs)) = true := by
-      simpa [exprReadable, elemReadable, ctxReadable] using h
     have := readData_renderExpr (.raw (.list xs)) 0 false hx
-    simpa [readCtx, renderCtx, expected, renderExpr, denoteX, denoteE] using this
+    simpa [readCtx, renderCtxText, ctxExpr, expected, renderExpr, denoteX, denoteE] using this
   | setItem d k v =>
-    simp only [ctxReadable, Bool.and_eq_true] at h
-    have hs : exprReadable (.aset (bindAll d) (d.length != singleBindingCount)) = true := by
-      have := bindValue_readable (.dict d) h.1.1
-      simpa [bindValue] using this
-    obtain ⟨h1, h2⟩ := setItem_spec (bindAll d) (d.length != singleBindingCount) k v hs h.1.2 h.2
-    simp only [readCtx, renderCtx, expected, fromDict]
-    rw [readData_renderExpr _ 0 false h1, h2, denoteBs_bindAll]
+    simp only [readCtx, renderCtxText, expected]
+    rw [readData_renderExpr _ 0 false hx]
+    simp only [ctxExpr, fromDict, denoteX_setItem, denoteBs_bindAll]
   | setItemOn d ml k v =>
-    simp only [ctxReadable, Bool.and_eq_true] at h
-    have hs : exprReadable (.aset (bindAll d) ml) = true := by
-      have := bindValue_readable (.dict d) h.1.1
-      simpa [bindValue, exprReadable] using this
-    obtain ⟨h1, h2⟩ := setItem_spec (bindAll d) ml k v hs h.1.2 h.2
-    simp only [readCtx, renderCtx, expected]
-    rw [readData_renderExpr _ 0 false h1, h2, denoteBs_bindAll]
+    simp only [readCtx, renderCtxText, expected]
+    rw [readData_renderExpr _ 0 false hx]
+    simp only [ctxExpr, denoteX_setItem, denoteBs_bindAll]
 
-/-- For values of the property's domain the side condition is exactly "avoids the three documented
-    defects": no negative number as a list element, no float whose repr lacks a `.`, no integer
-    outside 64 bits (`ctxAvoids`; the harness classifies failing inputs with the same tests). -/
-theorem readable_iff_avoids (c : Ctx) (hd : ctxInDomain c = true) : ctxReadable c = ctxAvoids c :=
-  ctxReadable_eq_avoids c hd
+/-- Every value of the property's domain meets the side condition (no documented defect is left
+    to avoid; this replaces `readable_iff_avoids`). -/
+theorem domain_readable (c : Ctx) (hd : ctxInDomain c = true) : ctxReadable c = true :=
+  ctxInDomain_readable c hd
 
-/-- For the repr of a finite Python float, being a Nix float token is exactly having a `.`. -/
+/-- For the repr of a finite Python float, being a Nix float token is exactly having a `.` (which is
+    why the repr itself cannot be written: `1e+16` is not a float token). -/
 theorem float_repr_readable_iff_dot (r : Text) (h : isPyFloatRepr r = true) :
     isNixFloat (unsignedRepr r) = (unsignedRepr r).contains '.' :=
   pyFloatRepr_nixFloat_iff_dot r h
 
-/-- **The property on its domain, minus the documented defects.** Every value of the domain that
-    avoids the three defects is read back exactly, in every context. -/
-theorem roundtrip_domain (c : Ctx) (hd : ctxInDomain c = true) (ha : ctxAvoids c = true) :
-    readCtx c (renderCtx c) = some (expected c) :=
-  roundtrip_partial c (by rw [readable_iff_avoids c hd]; exact ha)
-
-/-! ## 3. The full statement, and where the code violates it -/
+/-- The literal every repr of a finite Python float is spelled with (`1e+16` ↦ `1.0e+16`, all others
+    unchanged) is a Nix float token with the sign of the repr, denoting the same real number. -/
+theorem float_repr_literal_ok (r : Text) (h : isPyFloatRepr r = true) :
+    isNixFloat (unsignedRepr (floatLiteral r)) = true ∧
+    isNegText (floatLiteral r) = isNegText r ∧
+    decValue (unsignedRepr (floatLiteral r)) = decValue (unsignedRepr r) := by
+  have := pyFloatRepr_litOk r h
+  simpa [floatLitOk, and_assoc] using this
 
 /-- FULL statement of the property's read-back clause: every value of the domain (dicts with
-    distinct identifier keys, lists of scalars/lists, strings without `${`, all integers, booleans,
-    None, every finite float's repr), in every container context. False of the current code. -/
+    distinct identifier keys, lists of scalars/lists, strings without `${`, every integer Nix can
+    write, booleans, None, every finite float's repr), in every container context, is accepted and
+    renders to text that Nix reads back as exactly that value. -/
 def RoundTripFull : Prop :=
-  ∀ c : Ctx, ctxInDomain c = true → readCtx c (renderCtx c) = some (expected c)
+  ∀ c : Ctx, ctxInDomain c = true → ∃ t, renderCtx c = .ok t ∧ readCtx c t = some (expected c)
 
-/-- `NixList([-1]).rebuild()` is `[ -1 ]`: not a list holding the number -1 (a syntax error in Nix).
-    Open known finding C13-neg-number-in-list; replayed on the implementation by the check. -/
-theorem cex_neg_in_list : ¬ RoundTripFull := by
-  intro h
-  have h1 := h (.list [.int (-1)]) (by decide)
-  have h2 : (readCtx (.list [.int (-1)]) (renderCtx (.list [.int (-1)]))).isSome = false := by decide
-  rw [h1] at h2; cases h2
+/-- **The property on its domain** (formerly `roundtrip_domain`, which had to assume that the value
+    avoids the three documented defects; with the three repaired the full statement holds). -/
+theorem roundtrip_full : RoundTripFull := fun c hd =>
+  ⟨renderCtxText c, roundtrip_partial c (domain_readable c hd)⟩
 
-/-- `NixList([1e16]).rebuild()` is `[ 1e+16 ]`: `1e+16` is not a Nix float token.
-    Open known finding C13-float-exponent-no-dot. -/
-theorem cex_float_no_dot : ¬ RoundTripFull := by
-  intro h
-  have h1 := h (.list [.float "1e+16".toList]) (by decide)
-  have h2 : (readCtx (.list [.float "1e+16".toList]) (renderCtx (.list [.float "1e+16".toList]))).isSome = false := by
-    decide
-  rw [h1] at h2; cases h2
+/-- **Negative numbers as list elements** (repaired defect C13-neg-number-in-list; this replaces
+    the former counterexample `cex_neg_in_list`). A list of integers of either sign, at any indent
+    and inline flag, reads back as exactly those integers: a negative element is written `(-n)`. -/
+theorem neg_in_list_roundtrip (is : List Int) (h : ∀ i ∈ is, i.natAbs ≤ nixIntMax) (indent : Nat)
+    (inline : Bool) :
+    readData (renderElem (.list (is.map Elem.int)) indent inline) = some (.list (is.map Data.int)) := by
+  have hr : elemsReadable (is.map Elem.int) = true := by
+    induction is with
+    | nil => rfl
+    | cons i is ih =>
+      simp only [List.map_cons, elemsReadable, elemReadable, Bool.and_eq_true, decide_eq_true_eq]
+      exact ⟨h i (by simp), ih (fun j hj => h j (by simp [hj]))⟩
+  have hd : ∀ js : List Int, denoteEs (js.map Elem.int) = js.map Data.int := by
+    intro js
+    induction js with
+    | nil => rfl
+    | cons j js ih => simp only [List.map_cons, denoteEs, denoteE, ih]
+  have := readData_renderExpr (.raw (.list (is.map Elem.int))) indent inline
+    (by simpa [exprReadable, elemReadable] using hr)
+  simpa [renderExpr, denoteX, denoteE, hd is] using this
 
-/-- The same in binding position: `a = 1e-07;` is the application `1 e-07`. -/
-theorem cex_float_no_dot_binding : ¬ RoundTripFull := by
-  intro h
-  have h1 := h (.binding "a".toList (.elem (.float "1e-07".toList))) (by decide)
-  have h2 : (readCtx (.binding "a".toList (.elem (.float "1e-07".toList)))
-      (renderCtx (.binding "a".toList (.elem (.float "1e-07".toList))))).isSome = false := by decide
-  rw [h1] at h2; cases h2
+/-- The spelling: `NixList([-1]).rebuild()` is `[ (-1) ]`, `[1, -2.5]` is broken over lines with
+    the negative float in parentheses; in binding position the minus stays bare. -/
+theorem neg_in_list_spelling :
+    renderCtx (.list [.int (-1)]) = .ok "[ (-1) ]".toList ∧
+    renderCtx (.list [.int 1, .float "-2.5".toList]) = .ok "[\n  1\n  (-2.5)\n]".toList ∧
+    renderCtx (.binding "k".toList (.elem (.list [.int (-1)]))) = .ok "k = [ (-1) ];".toList ∧
+    renderCtx (.binding "k".toList (.elem (.int (-1)))) = .ok "k = -1;".toList := by decide
 
-/-- `a = 9223372036854775808;` is rejected by Nix (`invalid integer`).
-    Open known finding C13-int-out-of-range. -/
-theorem cex_int_out_of_range : ¬ RoundTripFull := by
-  intro h
-  have h1 := h (.binding "a".toList (.elem (.int 9223372036854775808))) (by decide)
-  have h2 : (readCtx (.binding "a".toList (.elem (.int 9223372036854775808)))
-      (renderCtx (.binding "a".toList (.elem (.int 9223372036854775808))))).isSome = false := by decide
-  rw [h1] at h2; cases h2
+/-- **Floats whose repr has an exponent and no `.`** (repaired defect C13-float-exponent-no-dot;
+    this replaces the former counterexamples `cex_float_no_dot`, `cex_float_no_dot_binding`). The
+    repr of any finite Python float, as a list element or as a binding value, at any indent and
+    inline flag, reads back as a float of the same sign denoting the same number. -/
+theorem float_repr_roundtrip (r : Text) (h : isPyFloatRepr r = true) (k : Text) (hk : isDataKey k = true)
+    (indent : Nat) (inline : Bool) :
+    readData (renderElem (.list [.float r]) indent inline) = some (.list [floatData r]) ∧
+    readBinding (renderBinding k (.raw (.float r)) indent inline) = some (k, floatData r) := by
+  have hr : elemReadable (.float r) = true := by simpa [elemReadable] using pyFloatRepr_litOk r h
+  constructor
+  · have := readData_renderExpr (.raw (.list [.float r])) indent inline
+      (by simpa [exprReadable, elemReadable, elemsReadable] using hr)
+    simpa [renderExpr, denoteX, denoteE, denoteEs] using this
+  · have := readBinding_renderBinding k (.raw (.float r)) indent inline hk (by simpa [exprReadable] using hr)
+    simpa [denoteX, denoteE] using this
+
+/-- The spelling: `1e+16` is written `1.0e+16`, `1e-07` is written `1.0e-07`, a negative one in a list
+    is parenthesised, a repr with a `.` is written as it is; and `1.0e+16` denotes the number of
+    `1e+16` (both `1 × 10^16`). -/
+theorem float_no_dot_spelling :
+    renderCtx (.list [.float "1e+16".toList]) = .ok "[ 1.0e+16 ]".toList ∧
+    renderCtx (.binding "a".toList (.elem (.float "1e-07".toList))) = .ok "a = 1.0e-07;".toList ∧
+    renderCtx (.list [.float "-5e-324".toList]) = .ok "[ (-5.0e-324) ]".toList ∧
+    renderCtx (.list [.float "1.5e+16".toList, .float "0.1".toList]) = .ok "[\n  1.5e+16\n  0.1\n]".toList ∧
+    decValue "1.0e+16".toList = decValue "1e+16".toList ∧ decValue "1e+16".toList = ⟨1, 16⟩ := by decide
+
+/-! ## 3. Integers Nix cannot write are refused, and nothing else is -/
+
+/-- **Refusal is exact** (repaired defect C13-int-out-of-range; this replaces the former
+    counterexample `cex_int_out_of_range`). In every container context and for every value
+    whatsoever, `rebuild()` raises `ValueError` exactly when the data handed in holds an integer
+    whose magnitude exceeds `2^63 - 1` (Nix has no literal for it); otherwise it returns the text. -/
+theorem refusal_exact (c : Ctx) :
+    (dataOutOfRange (expected c) = true → renderCtx c = .error .value) ∧
+    (dataOutOfRange (expected c) = false → renderCtx c = .ok (renderCtxText c)) := by
+  have h : exprRefused (ctxExpr c) = dataOutOfRange (expected c) := by
+    rw [exprRefused_eq, denoteX_ctxExpr]
+  constructor <;> intro hd <;> simp [renderCtx, h, hd]
+
+/-- The former witness: `Binding(name="a", value=2**63).rebuild()` raises `ValueError` (it used to
+    return `a = 9223372036854775808;`, which Nix rejects); so does `-2**63` (`-9223372036854775808`
+    is the negation of a literal Nix rejects), also deep inside a list inside a set; the largest
+    literals are written. -/
+theorem int_out_of_range_refused :
+    renderCtx (.binding "a".toList (.elem (.int 9223372036854775808))) = .error .value ∧
+    renderCtx (.list [.int (-9223372036854775808)]) = .error .value ∧
+    renderCtx (.fromDict [("k".toList, .dict [("x".toList, .elem (.list [.int 1, .list [.int (10 ^ 30)]]))])]) = .error .value ∧
+    renderCtx (.binding "a".toList (.elem (.int 9223372036854775807))) = .ok "a = 9223372036854775807;".toList ∧
+    renderCtx (.list [.int (-9223372036854775807)]) = .ok "[ (-9223372036854775807) ]".toList := by decide
+
+/-- A value of the domain is never refused. -/
+theorem domain_not_refused (c : Ctx) (hd : ctxInDomain c = true) : dataOutOfRange (expected c) = false := by
+  have h := (roundtrip_partial c (domain_readable c hd)).1
+  cases hb : dataOutOfRange (expected c) with
+  | false => rfl
+  | true => rw [(refusal_exact c).1 hb] at h; cases h
 
 /-! ## 4. Determinism -/
 
-/-- The rendered text is a function of the value and the context alone (the model has no other
-    input); that the implementation has no hidden state either is checked by the correspondence and
+/-- The outcome (text or refusal) is a function of the value and the context alone (the model has
+    no other input); that the implementation has no hidden state either is checked by the correspondence and
     by rendering twice. -/
 theorem render_deterministic (c₁ c₂ : Ctx) (h : c₁ = c₂) : renderCtx c₁ = renderCtx c₂ := by
   rw [h]
@@ -201,7 +265,7 @@ multiline layout. (The full stability statement needs the model of `parse`: C06.
 
 def SetFlagsStable : Prop :=
   ∀ d : List (Text × PyVal), valInDomain (.dict d) = true → d ≠ [] →
-    hasNl (renderCtx (.fromDict d)) = (d.length != singleBindingCount)
+    hasNl (renderCtxText (.fromDict d)) = (d.length != singleBindingCount)
 
 /-- `from_dict({"k": [1, 2]})` is built with `multiline = False` yet renders over several lines.
     Open known finding C13-unstable-inline-attrset. -/
@@ -223,12 +287,14 @@ example : ctxReadable (.fromDict [("a".toList, .elem (.int (-5))), ("b".toList, 
     .str "q\"\\\n$".toList, .list [.bool true, .none]])), ("c".toList, .dict [("x".toList, .dict [])])]) = true := by decide
 example : ctxReadable (.setItem [("a".toList, .elem (.int 1))] "a".toList (.dict [("n".toList, .elem (.float "-0.0".toList))])) = true := by
   decide
-example : renderCtx (.fromDict [("k".toList, .elem (.list [.int 1, .int 2]))]) = "{ k = [\n    1\n    2\n  ]; }".toList := by
+example : renderCtx (.fromDict [("k".toList, .elem (.list [.int 1, .int 2]))]) = .ok "{ k = [\n    1\n    2\n  ]; }".toList := by
   decide
-example : ctxInDomain (.setItemOn [("a".toList, .elem (.int 1))] true "k".toList (.dict [("x".toList, .elem (.float "1.5e-07".toList))])) = true ∧
-    ctxAvoids (.setItemOn [("a".toList, .elem (.int 1))] true "k".toList (.dict [("x".toList, .elem (.float "1.5e-07".toList))])) = true := by
+example : ctxInDomain (.setItemOn [("a".toList, .elem (.int 1))] true "k".toList (.dict [("x".toList, .elem (.float "1.5e-07".toList))])) = true := by
   decide
-example : ctxInDomain (.list [.float "1e+16".toList, .int (-1)]) = true ∧
-    ctxReadable (.list [.float "1e+16".toList]) = false ∧ ctxReadable (.list [.int (-1)]) = false := by decide
+example : ctxInDomain (.list [.float "1e+16".toList, .int (-1), .int (-9223372036854775807)]) = true ∧
+    ctxInDomain (.list [.int 9223372036854775808]) = false ∧
+    ctxReadable (.list [.float "1e+16".toList, .float "-1e-07".toList]) = true ∧
+    ctxReadable (.list [.int (-1), .float "-0.5".toList]) = true ∧
+    ctxReadable (.list [.int 9223372036854775808]) = false := by decide
 
 end Nima.C13
